@@ -321,6 +321,24 @@ def r81(ctx):
     ctx.rule('R8.1', 'fire loops: iterate a fresh copy of the list registered under the fired event\'s own type; exactly one notify(event) per element; no break/continue/return')
     ci = prog.cls(P)
     n = 0
+    # nothing of a listener runs while the producer holds a non-reentrant lock of its own: a listener that (un)subscribes or fires from
+    # inside notify() -- explicitly supported by the copy of the list -- would wait for that lock for ever (read in the source as written)
+    raw = ast.parse(ci.module.src)
+    for rc in [c for c in raw.body if isinstance(c, ast.ClassDef) and c.name == P]:
+        locks = {t.attr for x in ast.walk(rc) if isinstance(x, (ast.Assign, ast.AnnAssign)) and isinstance(getattr(x, 'value', None), ast.Call)
+                 and unparse(x.value.func) in ('threading.Lock', 'Lock') for t in (x.targets if isinstance(x, ast.Assign) else [x.target]) if isinstance(t, ast.Attribute)}
+        for m in [m for m in rc.body if isinstance(m, ast.FunctionDef)]:
+            for w in [w for w in ast.walk(m) if isinstance(w, ast.With)]:
+                held = [unparse(i.context_expr) for i in w.items if isinstance(i.context_expr, ast.Attribute) and i.context_expr.attr in locks]
+                if not held:
+                    continue
+                calls = [c for b in w.body for c in ast.walk(b) if isinstance(c, ast.Call) and isinstance(c.func, ast.Attribute) and c.func.attr == 'notify']
+                ctx.ob('R8.1', f'{P}.{m.name}:under-lock', not calls, sample=f'{P}.{m.name}: with {held[0]}: listener code inside: {bool(calls)}')
+                for c in calls[:1]:
+                    ctx.finding('R8.1', f'{P}.{m.name}:notify-under-lock', ci, c,
+                                f'`{short(c)}` runs while `{held[0]}` (a non-reentrant threading.Lock that add_listener / remove_listener take as well) is held: a listener '
+                                f'that subscribes, unsubscribes or stops the simulator from inside notify() blocks its own thread for ever -- in the simulator the run thread, '
+                                f'with the event already popped', where=f'{P}.{m.name}')
     for fn in ci.methods.values():
         # delivery written as a generator expression handed to a consumer that stops early
         for call in [x for x in walk_shallow(fn) if isinstance(x, ast.Call) and isinstance(x.func, ast.Name) and x.args and isinstance(x.args[0], ast.GeneratorExp)]:
@@ -345,7 +363,14 @@ def r81(ctx):
             if not isinstance(loop, ast.For):
                 problems.append('delivery loop is not a for-loop over the listener list')
             else:
-                form, base = copy_of(loop.iter)
+                it_ = loop.iter
+                if isinstance(it_, ast.Name):
+                    # `snapshot = list(...)` taken earlier in the method: the loop iterates that snapshot
+                    defs_ = [a for a in walk_shallow(fn) if isinstance(a, (ast.Assign, ast.AnnAssign)) and getattr(a, 'value', None) is not None
+                             and any(isinstance(t, ast.Name) and t.id == it_.id for t in (a.targets if isinstance(a, ast.Assign) else [a.target]))]
+                    if len(defs_) == 1:
+                        it_ = defs_[0].value
+                form, base = copy_of(it_)
                 memo = memo_snapshot(ctx, prog, fn, loop, F, param) if form is None else None
                 if memo is not None:
                     form, base = 'memo', memo[0]
@@ -353,7 +378,8 @@ def r81(ctx):
                 if form is None:
                     problems.append(f'iterates `{short(loop.iter, 50)}` directly, not a copy: a listener that (un)subscribes during notify makes the loop skip or repeat listeners')
                 bt = unparse(base)
-                want = {f'self.{F}.get({param}.event_type)', f'self.{F}[{param}.event_type]', f'self.{F}.get({param}.event_type, [])'}
+                want = {f'self.{F}.get({param}.event_type)', f'self.{F}[{param}.event_type]', f'self.{F}.get({param}.event_type, [])',
+                        f'self.{F}.get({param}.event_type, ())'}
                 if bt not in want:
                     problems.append(f'listener list is `{bt}`, not the list registered under {param}.event_type')
                 if len(notifies) != 1:
